@@ -33,6 +33,11 @@ type listCase struct {
 	Opts  *recipe.Opts `json:"opts,omitempty"`
 	Arity int          `json:"arity"`
 	Mask  uint32       `json:"mask"`  // bit i set: position i holds a null-like item
+	// GroupForm: the construct is built through its ...Func variant and the items through the *Group methods
+	// (g.Null(), g.Id(..)); NullHead: real items are spelled Null().Id(x) — a statement that starts with Null()
+	// and is continued is an ordinary item
+	GroupForm bool `json:"groupform,omitempty"`
+	NullHead  bool `json:"nullhead,omitempty"`
 	Kinds []int        `json:"kinds"` // null kind per masked position (index into mutate.NullKinds)
 	Empty int          `json:"empty"` // >= 0: that (real) position holds Empty() instead
 }
@@ -63,12 +68,20 @@ func tokens(src []byte) ([]string, error) {
 }
 
 func renderList(fn string, opts *recipe.Opts, items []*recipe.Node) (string, error) {
+	return renderListForm(fn, opts, items, false)
+}
+
+func renderListForm(fn string, opts *recipe.Opts, items []*recipe.Node, groupForm bool) (string, error) {
 	call := recipe.Call{Fn: fn, Items: items, Opts: opts}
 	n := recipe.Id("head")
 	n.Calls = append(n.Calls, call)
 	n = n.C("Id", "tail")
 	fr := &recipe.File{Ctor: "NewFile", Args: []recipe.Text{"p"}, Ops: []recipe.FileOp{{Op: "NoFormat"}}, Body: []*recipe.Node{n}}
-	out, err := rt.Render(&recipe.Builder{}, fr)
+	b := &recipe.Builder{}
+	if groupForm {
+		b.Forms = &recipe.Decisions{Draw: func(n int) int { return n - 1 }}
+	}
+	out, err := rt.Render(b, fr)
 	if err != nil {
 		return "", err
 	}
@@ -97,11 +110,15 @@ func checkList(c listCase) error {
 		}
 		id := fmt.Sprintf("a%02d", i)
 		ids = append(ids, id)
-		with = append(with, recipe.Id(id))
+		if c.NullHead && i%2 == 1 {
+			with = append(with, recipe.S().C("Null").C("Id", id))
+		} else {
+			with = append(with, recipe.Id(id))
+		}
 		without = append(without, recipe.Id(id))
 		marked = append(marked, recipe.Id(id))
 	}
-	got, err := renderList(c.Fn, c.Opts, with)
+	got, err := renderListForm(c.Fn, c.Opts, with, c.GroupForm)
 	if err != nil {
 		return fmt.Errorf("render with nulls: %v", err)
 	}
@@ -373,7 +390,7 @@ func TestC13(t *testing.T) {
 						}
 						// null kinds and the Empty position vary deterministically with the case index and seed
 						h := uint64(idx)*2654435761 + r.Seed*40503
-						c := listCase{Fn: fn, Opts: opts, Arity: arity, Mask: mask, Empty: -1}
+						c := listCase{Fn: fn, Opts: opts, Arity: arity, Mask: mask, Empty: -1, GroupForm: (h>>40)%3 == 0, NullHead: (h>>44)%3 == 0}
 						for j := 0; j < 4; j++ {
 							c.Kinds = append(c.Kinds, int((h>>(8*uint(j)))%uint64(len(mutate.NullKinds))))
 						}
@@ -407,6 +424,11 @@ func TestC13(t *testing.T) {
 			}
 		}
 		c.Mask = rapid.Uint32().Draw(rt, "mask") & (1<<uint(c.Arity) - 1)
+		c.GroupForm = rapid.IntRange(0, 2).Draw(rt, "groupform") == 0
+		c.NullHead = rapid.IntRange(0, 2).Draw(rt, "nullhead") == 0
+		if c.GroupForm && c.NullHead {
+			r.Class("group_methods_and_continued_Null")
+		}
 		n := rapid.IntRange(1, 8).Draw(rt, "nkinds")
 		for i := 0; i < n; i++ {
 			c.Kinds = append(c.Kinds, rapid.IntRange(0, len(mutate.NullKinds)-1).Draw(rt, "kind"))
